@@ -141,6 +141,7 @@ func (c *Cluster) handleSQL(ctx context.Context, conn *pgshim.Conn, kind, q stri
 				return nil, nil
 			}
 		}
+		t.aborted = true
 		return nil, pgErr("3B001", "savepoint does not exist", "")
 	case strings.HasPrefix(up, "ROLLBACK TO SAVEPOINT "):
 		if sess == nil || sess.txn == nil {
@@ -160,7 +161,10 @@ func (c *Cluster) handleSQL(ctx context.Context, conn *pgshim.Conn, kind, q stri
 				return nil, nil
 			}
 		}
-		return nil, pgErr("3B001", "savepoint does not exist", "")
+		// an error inside a transaction block aborts it (bun sends ROLLBACK TO SAVEPOINT for Rollback() of a
+		// nested Tx even when that savepoint was already released by its Commit())
+		t.aborted = true
+		return nil, pgErr("3B001", "savepoint \""+name+"\" does not exist", "")
 	}
 
 	if m := reAdvisory.FindStringSubmatch(trim); m != nil {
